@@ -701,7 +701,7 @@ def main():
         flat_cfgs = [(E, S_) for E, S_ in shapes(maxN) if E > 1]
         sample_cfgs = [(1, 5, 2), (2, 2, 3), (2, 3, 6), (3, 2, 4), (4, 3, 5), (2, 6, 4)]
         key_cfgs = [(2, 2, 2, 2), (2, 2, 3, 1), (1, 4, 4, 2)]
-        visit_cfgs = [(2, 2, 1, 2), (1, 5, 1, 2), (2, 2, 2, 2), (2, 3, 1, 3), (1, 5, 2, 2), (2, 3, 2, 3), (2, 4, 1, 2), (2, 4, 2, 4)]
+        visit_cfgs = [(2, 2, 1, 2), (1, 5, 1, 2), (2, 2, 2, 2), (2, 3, 1, 3), (1, 5, 2, 2), (2, 3, 2, 3), (2, 4, 1, 2), (2, 4, 1, 4), (1, 7, 1, 3)]   # N<=8 one epoch, N<=6 two epochs (N=8, 2 epochs: > 150 s)
         ch = ((0, 1, 2, 3), (1, 2, 3), 60)
     else:
         maxN = 8
